@@ -29,10 +29,12 @@ fn main() {
             thread_done();
         }));
     }
-    for h in hs { h.join().unwrap(); }
+    let mut panicked = false;
+    for h in hs { if h.join().is_err() { panicked = true; } }
     let res = res.lock().unwrap().clone();
     println!("expected {:#x} got {:x?}", expect, res);
     let mut v = vec![];
     if res.iter().any(|(_, o)| o.iter().any(|x| *x != expect)) { v.push("get_hash_is_the_key_hash_on_every_thread"); }
+    if panicked { v.push("no_panic"); }
     finish(&v, &plan)
 }
